@@ -11,10 +11,24 @@ package unionfind
 //@   trusted
 //@   modifies nothing
 
-// Unification works on a clone of the given union-find: nothing reachable by the caller is written (ASSUMED).
-//@ func UnifyTermsExtend(xs, ys, base)
+// Unification works on a clone of the given union-find: nothing reachable by the caller is written. The frame stays
+// ASSUMED for callers; the body is checked for the one way it can break: find compresses paths in the parent map of
+// its receiver and unifyTermsUpdate links roots in the map it is given, so both must be handed the clone, never the
+// caller's value (substitutions are shared between the branches of a join, and between goroutines).
+// (Clone makes a new map: ASSUMED - the verifier does not know a parameter's map to be allocated already.)
+//@ func (uf UnionFind) Clone()
 //@   trusted
 //@   modifies nothing
+//@   ensures result.parent != nil && result.parent != uf.parent
+//@ func UnifyTermsExtend(xs, ys, base)
+//@   opt assumeensures
+//@   opt assumeframe
+//@   opt nosafety
+//@   modifies nothing
+//@   guard call find: recv.parent != base.parent
+//@   guard call unifyTermsUpdate: arg2.parent != base.parent
+//@   loop 1 invariant uf.parent != base.parent
+//@   loop 2 invariant uf.parent != base.parent
 
 // ---- C01: find returns a representative -------------------------------------------------------------------------
 // Whatever find returns (other than nil for an unknown term) is a root of the forest: it is its own parent. (Path halving
